@@ -3,7 +3,12 @@
 Every check calls lib()/harness() which hash the *current* contents of <repo>/m4ri/*.{c,h},
 configure.ac and m4ri_config.h.in, so a change of the working tree always leads to a rebuild.
 """
-import hashlib, os, re, shutil, subprocess, sys, tempfile, time, json
+import hashlib, os, re, shutil, subprocess, sys, tempfile, time, json, uuid, threading
+_LOCKS = {}
+_LOCKS_GUARD = threading.Lock()
+def _lock(key):
+    with _LOCKS_GUARD:
+        return _LOCKS.setdefault(key, threading.Lock())
 from concurrent.futures import ThreadPoolExecutor
 
 VERIF = os.path.dirname(os.path.dirname(os.path.abspath(__file__)))
@@ -155,6 +160,11 @@ def lib(cfg, repo=None):
     repo = repo or REPO
     key = hashlib.sha256((tree_hash(repo) + cfg.tag() + " ".join(cfg.cflags()) + "v3").encode()).hexdigest()[:24]
     d = os.path.join(CACHE, "lib-" + key)
+    with _lock(d):
+        return _lib_locked(cfg, repo, d)
+
+
+def _lib_locked(cfg, repo, d):
     if os.path.exists(os.path.join(d, "ok")):
         os.utime(d)
         return d
@@ -175,7 +185,7 @@ def lib(cfg, repo=None):
         with ThreadPoolExecutor(16) as ex:
             list(ex.map(comp, cs))
         _run(["ar", "rcs", os.path.join(tmp, "libm4ri.a")] + [os.path.join(tmp, f[:-2] + ".o") for f in cs])
-        out = d + ".tmp%d" % os.getpid()
+        out = d + ".tmp%d-%s" % (os.getpid(), uuid.uuid4().hex[:8])
         shutil.rmtree(out, ignore_errors=True)
         os.makedirs(os.path.join(out, "m4ri"))
         for f in os.listdir(os.path.join(tmp, "m4ri")):
@@ -208,10 +218,15 @@ def harness(cfg, sources, name, extra_cflags=(), extra_ldflags=(), repo=None, li
         h.update(p.encode()); h.update(open(p, "rb").read())
     d = os.path.join(CACHE, "bin-" + h.hexdigest()[:24])
     exe = os.path.join(d, name)
+    with _lock(d):
+        return _harness_locked(cfg, sources, name, extra_cflags, extra_ldflags, L, hdir, d, exe, link_lib)
+
+
+def _harness_locked(cfg, sources, name, extra_cflags, extra_ldflags, L, hdir, d, exe, link_lib):
     if os.path.exists(exe):
         os.utime(d)
         return exe
-    tmp = d + ".tmp%d" % os.getpid()
+    tmp = d + ".tmp%d-%s" % (os.getpid(), uuid.uuid4().hex[:8])
     shutil.rmtree(tmp, ignore_errors=True)
     os.makedirs(tmp)
     cmd = ([cfg["cc"]] + cfg.cflags() + list(extra_cflags) + ["-I" + L, "-I" + hdir, "-I/usr/include/libpng16"] +
